@@ -121,14 +121,21 @@ def check(repo: Repo, run: Run) -> None:
             run.ob("C03.S1", f"Evaluator.{rule}", handled, f"grammar rule {rule}: handled by the .data dispatch of {parents}: {handled}", str(ev.path))
     run.floor("C03.S1", n1, 20)
 
-    def macro_set(fn: ast.FunctionDef) -> Set[str]:
+    def macro_set(fn: ast.FunctionDef, cls_name: str) -> Set[str]:
+        from ..core.consteval import try_const
+
         for n in ast.walk(fn):
-            if isinstance(n, ast.Compare) and isinstance(n.ops[0], ast.In) and isinstance(n.comparators[0], ast.Set) and ast.unparse(n.left).endswith(".value"):
-                return {e.value for e in n.comparators[0].elts if isinstance(e, ast.Constant)}
+            if isinstance(n, ast.Compare) and isinstance(n.ops[0], (ast.In, ast.NotIn)) and ast.unparse(n.left).endswith(".value"):
+                val = try_const(ev, n.comparators[0], ev.cls(cls_name), fn)
+                if isinstance(val, (set, frozenset, tuple, list)) and val and all(isinstance(x, str) for x in val):
+                    return set(val)
         return set()
 
-    mi, mt = macro_set(E["member_dot_arg"]), macro_set(P1["member_dot_arg"])
-    run.ob("C03.S1", "macro names", mi == mt and len(mi) >= 5, f"macro names: interpreter {sorted(mi)}, transpiler {sorted(mt)}", ev.loc(P1["member_dot_arg"]))
+    mi, mt = macro_set(E["member_dot_arg"], "Evaluator"), macro_set(P1["member_dot_arg"], "Phase1Transpiler")
+    if not mi or not mt:
+        run.inconclusive("C03.S1", "macro names", f"the set of macro names tested by member_dot_arg was not found as a constant (interpreter {sorted(mi)}, transpiler {sorted(mt)})")
+    else:
+        run.ob("C03.S1", "macro names", mi == mt and len(mi) >= 5, f"macro names: interpreter {sorted(mi)}, transpiler {sorted(mt)}", ev.loc(P1["member_dot_arg"]))
     tm = [t for t in templates.find_templates(repo).get("member_dot_arg", []) if "macro_${macro}" in t.text]
     for name in sorted(mt):
         has = ev.has(f"macro_{name}") and isinstance(ev.top(f"macro_{name}"), ast.FunctionDef)
